@@ -1,6 +1,8 @@
 package sim
 
 import (
+	"crypto/sha256"
+	"encoding/binary"
 	"fmt"
 
 	"github.com/relab/hotstuff"
@@ -22,6 +24,9 @@ type Actor struct {
 	Timeouts   []hotstuff.TimeoutMsg
 	ServeFetch bool
 	ServeFrom  hotstuff.View // blocks below this view are withheld from fetches
+	Twin       map[hotstuff.Hash]*hotstuff.Block // second blocks that hash like a proposal of the actor: served instead of it
+	AmbiguousProposals int
+	ambSeq     int
 	Sent       int
 	cmdSeq     uint64
 	seenQC     map[string]bool
@@ -304,6 +309,7 @@ const (
 	AProposeOldAgg        // template (aggregate QCs): a proposal justified by an OLD, genuine aggregate QC: certificate = that aggregate's high QC, parent = its block
 	AProposeRelabelledSigners // template: the proposal the actor would make honestly, but the block's certificate attributes the genuine signatures to other replicas (same view, hash and signature bytes); with aggregate QCs the genuine aggregate goes along
 	AServeRecentOnly // block fetches are answered only for blocks of the last 1+B%5 views (older ones are withheld)
+	AProposeAmbiguous // template: the proposal the actor would make honestly, with ONE client command whose 40 data bytes read like the head of a certificate encoding; the actor also prepares a second block (no commands, a made-up certificate that swallows the real one as "signature bytes") with the same parent, view, proposer and time, and answers fetches for the proposal's hash with that second block whenever the two blocks hash alike
 	aCount
 )
 
@@ -328,7 +334,7 @@ func (a *Actor) Act(A, B, C int) {
 	}
 	if cl.Cfg.ActorAuto {
 		switch mod(A, aCount) {
-		case AProposeSkip, AProposeStaleQC, AEquivocate, AProposeWeird, AProposeOnForged, AProposeOldAgg, AProposeRelabelledSigners:
+		case AProposeSkip, AProposeStaleQC, AEquivocate, AProposeWeird, AProposeOnForged, AProposeOldAgg, AProposeRelabelledSigners, AProposeAmbiguous:
 			a.armed = &Step{K: KActor, A: mod(A, aCount), B: B, C: C}
 			return
 		}
@@ -757,6 +763,53 @@ func (a *Actor) Act(A, B, C int) {
 	}
 }
 
+// ambiguousBatch is a batch of one client command (client 99, a fresh sequence number below 128) whose data is
+// hash(32) | signer id(4) | length of the certificate's encoding(4): appended to it, the encoding of the block's real
+// certificate reads like the single signature of another certificate.
+func (a *Actor) ambiguousBatch(qc hotstuff.QuorumCert, B int) *clientpb.Batch {
+	a.ambSeq++
+	data := make([]byte, 0, 40)
+	h := sha256.Sum256([]byte(fmt.Sprintf("ambiguous %d", B)))
+	data = append(data, h[:]...)
+	data = binary.LittleEndian.AppendUint32(data, uint32(1+mod(B, a.cl.Cfg.N)))
+	data = binary.LittleEndian.AppendUint32(data, uint32(len(qc.ToBytes())))
+	return &clientpb.Batch{Commands: []*clientpb.Command{{ClientID: 99, SequenceNumber: uint64(a.ambSeq % 128), Data: data}}}
+}
+
+// prepareTwin builds the second reading of blk's bytes: same parent, proposer, view and time, NO commands, and a
+// certificate whose view is the 8 bytes of protobuf framing of blk's batch, whose block hash is the first 32 data bytes,
+// and whose one "signature" (signer = the next 4 bytes) is the encoding of blk's real certificate. It is kept (and served
+// to fetches) only if it really hashes like blk, i.e. if a block hash does not determine the block.
+func (a *Actor) prepareTwin(blk *hotstuff.Block, C int) {
+	raw := blk.Commands().Marshal()
+	cmds := blk.Commands().GetCommands()
+	if len(cmds) != 1 || len(cmds[0].Data) != 40 || len(raw) != 48 {
+		return
+	}
+	data := cmds[0].Data
+	var h hotstuff.Hash
+	copy(h[:], data[:32])
+	signer := hotstuff.ID(binary.LittleEndian.Uint32(data[32:36]))
+	view := hotstuff.View(binary.LittleEndian.Uint64(raw[:8]))
+	inner := blk.QuorumCert().ToBytes()
+	var sig hotstuff.QuorumSignature
+	if mod(C, 2) == 0 {
+		sig = crypto.Multi[*crypto.ECDSASignature]{crypto.RestoreECDSASignature(inner, signer)}
+	} else {
+		sig = crypto.Multi[*crypto.EDDSASignature]{crypto.RestoreEDDSASignature(inner, signer)}
+	}
+	twin := hotstuff.NewBlock(blk.Parent(), hotstuff.NewQuorumCert(sig, view, h), &clientpb.Batch{}, blk.View(), blk.Proposer())
+	twin.SetTimestamp(blk.Timestamp())
+	a.AmbiguousProposals++
+	if twin.Hash() != blk.Hash() {
+		return
+	}
+	if a.Twin == nil {
+		a.Twin = map[hotstuff.Hash]*hotstuff.Block{}
+	}
+	a.Twin[blk.Hash()] = twin
+}
+
 // highestIn returns the certificate of the highest view attested inside an aggregate QC.
 func highestIn(agg hotstuff.AggregateQC) (best hotstuff.QuorumCert, found bool) {
 	for _, c := range agg.QCs() {
@@ -1033,7 +1086,14 @@ func (a *Actor) proposeMaybeDeviating(me *Stack, qc hotstuff.QuorumCert, v hotst
 			return
 		}
 	}
-	blk := hotstuff.NewBlock(parent, qc, a.batch(), v, me.ID)
+	batch := a.batch()
+	if dev != nil && dev.A == AProposeAmbiguous {
+		batch = a.ambiguousBatch(qc, dev.B)
+	}
+	blk := hotstuff.NewBlock(parent, qc, batch, v, me.ID)
+	if dev != nil && dev.A == AProposeAmbiguous {
+		a.prepareTwin(blk, dev.C)
+	}
 	cl.register(blk)
 	if a.hold {
 		a.hold = false
